@@ -221,10 +221,11 @@ func (c *converter) Panic(value string) error {
 }
 
 func (c *converter) WriteFile(path string, content string, append string) error {
-	helper := c.nextHelperVar()
+	// The redirection is written out for both cases (instead of being assembled within eval) to make sure
+	// path and content are only expanded once within quotes (paths with spaces, contents with quotes, $, ...).
+	line := c.printString(content)
 
-	c.VarAssignment(helper, fmt.Sprintf(`$(if [ "%s" -eq "%s" ]; then echo ">>"; else echo ">"; fi)`, append, transpiler.BoolToString(true)), false)
-	c.addLine(fmt.Sprintf(`eval "echo \"%s\" %s %s"`, content, c.varEvaluationString(helper, false), path))
+	c.addLine(fmt.Sprintf(`if [ "%s" -eq "%s" ]; then %s >> "%s"; else %s > "%s"; fi`, append, transpiler.BoolToString(true), line, path, line, path))
 	return nil
 }
 
